@@ -123,7 +123,7 @@ class Run:
     """
 
     def __init__(self, program, ids="test", draw=False, sched_uuid="", answers=None, imm=None,
-                 mutate=False, as_file=None, imm_other=None):
+                 mutate=False, as_file=None, imm_other=None, imm_sf=None):
         self.calls = []  # one record per external API call
         self.cur = None  # event list of the call in progress
         self.answers = []
@@ -131,6 +131,9 @@ class Run:
         self.imm = imm or (lambda k: False)
         # cross re-entrancy: from inside the k-th announcement report the oldest *other* outstanding service
         self.imm_other = imm_other or (lambda k: False)
+        # completion of another outstanding service reported from inside the k-th service-FINISHED notification
+        self.imm_sf = imm_sf or (lambda k: False)
+        self.n_sf = 0
         self.mutate = mutate
         self.in_progress = []  # announcement indices whose completion is being delivered right now (a stack)
         self.announced = []  # service ids in announcement order
@@ -216,6 +219,15 @@ class Run:
                     self.complete(others[0], nested=True)
             if self.imm(k):
                 self.complete(k, nested=True)
+        elif _j == 0 and _kind == "sf":
+            k = self.n_sf
+            self.n_sf += 1
+            if self.imm_sf(k):
+                others = [j for j in self.pending if j not in self.in_progress]
+                if others:
+                    self.complete(others[0], nested=True)
+            if self.mutate:
+                self.hostile(api)
         elif _j == 0 and self.mutate:
             self.hostile(api)
 
